@@ -30,6 +30,8 @@ ASSUMPTIONS = c06.ASSUMPTIONS + [
     "members stored without a CRC are outside the claim",
     "symlink members extracted to a path: output paths are stub objects registered directly with the worker; "
     "is_path_valid is stubbed to True (subject of C03)",
+    "this harness has no filesystem: Worker._is_inside / _destination (physical containment, F29) are stubbed to 'inside' – "
+    "the subject of C03.3",
 ]
 
 
